@@ -292,6 +292,9 @@ AUDITED_RESET_CALLERS = {
 
 
 def r4_resets(ctx):
+    # the primitive itself: reset(to) leaves the watermark at exactly `to` (shared with C11-R2)
+    from .c11 import reset_sets_its_argument
+    reset_sets_its_argument(ctx)
     # who may call reset
     n = 0
     for fn in ctx.lib.fns.values():
